@@ -189,7 +189,9 @@ theorem exec1_ok (t : SuiteT) (h : Sound o t) (ft : FTab) (hft : Stable t ft) (n
   | .functionDef a nm args body decs ret tps, s => by
     simp only [travStmt]
     rw [h.stmt, exec1_flat _ _ _ _ rfl, exec1_flat _ _ _ _ rfl]
-    simp [flatExec, isAssertStmt, callOf, simpleExec]
+    have hp : ∀ b1 b2, isPlainDef (.functionDef a nm args b1 decs ret tps) = isPlainDef (.functionDef a nm args b2 decs ret tps) := by
+      intro b1 b2; cases a <;> cases decs <;> cases ret <;> cases tps <;> rfl
+    simp [flatExec, isAssertStmt, callOf, simpleExec, hp _ body]
   | .classDef nm bases kws body decs tps, s => by
     simp only [travStmt]
     rw [h.stmt, exec1_flat _ _ _ _ rfl, exec1_flat _ _ _ _ rfl]
